@@ -2,8 +2,7 @@
    words, taken from the source by the translator) equals the RFC's 64 operations on (A,B,C,D),
    by a per-step simulation; then the streaming theorems by instantiating MD32Proofs. *)
 From Coq Require Import Arith NArith ZArith List Lia ZifyNat ZifyN.
-From LCP Require Import Alg.Words Alg.WordsProofs Alg.MDSpec Alg.MDModel Alg.MDStreaming
-     Alg.MD32Model Alg.MD32Proofs Alg.Md5Spec Alg.Md5Model.
+From LCP Require Import Alg.Words Alg.WordsProofs Alg.MDSpec Alg.MDModel Alg.MDStreaming Alg.MD32Model Alg.MD32Proofs Alg.Md5Spec Alg.Md5Model.
 Import ListNotations.
 Local Open Scope N_scope.
 Ltac Zify.zify_post_hook ::= Z.to_euclidean_division_equations.
